@@ -1902,6 +1902,10 @@ class MapResult(ApplyResult):
         success, result = success_result
         if success:
             self._value[i * self._chunksize:(i + 1) * self._chunksize] = result
+            # this part is done: its worker no longer owns a part of the job
+            start = i * self._chunksize
+            stop = min(start + self._chunksize, self._length)
+            self._worker_pid[start:stop] = [None] * (stop - start)
             self._number_left -= 1
             if self._number_left == 0:
                 if self._callback:
